@@ -65,3 +65,8 @@ package Electiontrigger
 //@   requires triggerCancelled != nil
 //@   ensures [cancelled-trigger-is-not-sent] old(closed[triggerCancelled]) ==> nsent == old(nsent)
 //@   ensures [at-most-one-send] nsent <= old(nsent) + 1
+
+// construction: nothing armed, the election channel is unbuffered (a trigger is handed over only to a waiting main loop)
+//@ func NewTimerBasedElectionTrigger
+//@   props C19 C12
+//@   ensures [fresh] result != nil && result.electionChannel != nil && result.minTimeout == minTimeout && result.electionHandler == nil && result.timer == nil && result.triggerCancelled == nil
